@@ -41,4 +41,9 @@ def obligations(tier, seed=0):
         if fn not in ('mpc_atan', 'mpc_atanh'):        # these two take ~1 min each (symbolic additions at prec+15 bits)
             obs.append(('checks.fam_elem:cwrap_bits', dict(fn=fn, prec=10, rnd='f')))
             obs.append(('checks.fam_elem:cwrap_bits', dict(fn=fn, prec=3, rnd='u', rexp=4, iexp=-6)))
+    # _wrap_specfun: the closure around every @defun_wrapped special function hands back +retval (rounded to the context
+    # precision) whatever the wrapped function returns at prec+10
+    for name, kind in (('acot', 'mpf'), ('sec', 'mpc'), ('_erf_complex', 'mpc'), ('csch', 'mpf'), ('acsc', 'mpf')):
+        for prec in (12, 53):
+            obs.append(('checks.fam_elem:specfun_wrap', dict(name=name, prec=prec, kind=kind)))
     return obs
